@@ -171,7 +171,7 @@ manifest = {
     }],
     "checks": checks,
     "not_applicable": na,
-    "notes": "fix commits in /repo: d6879c7, 1b08581, 0694b59, 335c6c0, a908979, baca01e, c90fd36, e020d83.  known_findings.json lists recorded defects (status known / fixed).",
+    "notes": "fix commits in /repo: b8899d3, d6879c7, 1b08581, 0694b59, 335c6c0, a908979, baca01e, c90fd36, e020d83.  known_findings.json lists recorded defects (status known / fixed).",
 }
 (VERIF / "MANIFEST.json").write_text(json.dumps(manifest, indent=1) + "\n")
 print("claimed", sorted(CLAIMED), "not claimed", len(na))
